@@ -1,6 +1,10 @@
 package simrt
 
-import "time"
+import (
+	"os"
+	"strconv"
+	"time"
+)
 
 // Latent seams for the process environment. gogpu/naga's library code reads no
 // clock, no environment variable, no pid and no random source today; if a tree
@@ -12,6 +16,22 @@ import "time"
 
 // EnvSeed selects the simulated environment of the current scenario.
 var EnvSeed uint64
+
+// ProcEnvSeed is the simulated environment that is in force while the process
+// starts, i.e. while package-level initialisers of the compiler run (a value
+// sampled once per process - `var debug = os.Getenv("X") != ""` - is decided
+// here). The driver sets it per OS process through VERIF_PROC_ENV: processes
+// that compute pristine references always get 0.
+var ProcEnvSeed uint64
+
+func init() {
+	if v := os.Getenv("VERIF_PROC_ENV"); v != "" {
+		if n, err := strconv.ParseUint(v, 10, 64); err == nil {
+			ProcEnvSeed = n
+			EnvSeed = n
+		}
+	}
+}
 
 // EnvReads counts calls into these seams (fault statistics).
 var EnvReads uint64
